@@ -125,12 +125,12 @@ type Prop interface {
 }
 
 type Description struct {
-	Rule        string
-	Components  []Component
-	Assumptions []string
-	LiftInfo    [][2]string
-	FaultKinds  []string
-	Workers     int // preferred number of worker processes (0 = 16)
+	Rule                        string
+	Components                  []Component
+	Assumptions                 []string
+	LiftInfo                    [][2]string
+	FaultKinds                  []string
+	Workers                     int     // preferred number of worker processes (0 = 16)
 	QuickBudget, ThoroughBudget float64 // exploration wall-clock seconds per tier (0 = 45 / 1200)
 }
 
